@@ -115,6 +115,28 @@ func GenSchema(t *rapid.T, depth int) BodyS {
 	return genBody(t, nm, depth, true, true)
 }
 
+// GenSchemaPlain draws a schema without any/tuple attributes, tuple/object block
+// collections and free-attribute blocks: the subset that the struct encoder
+// (gohcl.EncodeIntoBody) documents as supported.
+func GenSchemaPlain(t *rapid.T, depth int) BodyS {
+	nm := &namer{}
+	b := genBody(t, nm, depth, false, true)
+	var fix func(b *BodyS)
+	fix = func(b *BodyS) {
+		for i := range b.Blocks {
+			bs := &b.Blocks[i]
+			if bs.Kind == "attrs" {
+				bs.Kind = "single"
+				bs.Elem = nil
+				bs.Body = &BodyS{Attrs: []AttrS{{Name: bs.Name + "_v", T: Type{K: "string"}, Req: true}}}
+			}
+			fix(bs.Body)
+		}
+	}
+	fix(&b)
+	return b
+}
+
 func genBody(t *rapid.T, nm *namer, depth int, allowDyn bool, top bool) BodyS {
 	var b BodyS
 	na := rapid.IntRange(0, 4).Draw(t, "nattrs")
